@@ -626,13 +626,14 @@ func (pr *ProtoArray) OnPrune(ctx context.Context, anchorRoot Root, anchorSlot S
 		}
 		prunedUpTo++
 	}
-	// adjust the slot we know for the anchor root, everything before it was pruned.
-	pr.blockSlots[anchorRoot] = anchorSlot
 	for _, p := range pruned[:prunedUpTo] {
 		delete(pr.indices, p.node.Ref)
 		// Remove the block-slots ref
 		delete(pr.blockSlots, p.node.Ref.Root)
 	}
+	// adjust the slot we know for the anchor root, everything before it was pruned.
+	// (After the removals: earlier nodes of the anchor root itself may be among the pruned nodes.)
+	pr.blockSlots[anchorRoot] = anchorSlot
 	// TODO: is this slicing bad for GC?
 	pr.nodes = pr.nodes[prunedUpTo:]
 	// Node indices are positions in the nodes array: the vote store computes one delta per position,
